@@ -28,6 +28,10 @@ func init() {
 			for _, n := range huge {
 				emit(Case{Op: fmt.Sprintf("c02.hugealien len=%d pos=%d", n, r.Intn(2)), Tags: []string{"huge-alien-chunk"}, NonTrivial: true})
 			}
+			// very many tracks (beyond 2^15, up to what the header can declare)
+			for _, nt := range []int{32767, 32768, 32769, 40000, 65535} {
+				emit(Case{Op: fmt.Sprintf("smf.manytracks n=%d", nt), Tags: []string{"many-tracks"}, NonTrivial: true})
+			}
 			for i := 0; i < n; i++ {
 				emit(genGram(r, tier))
 			}
@@ -231,6 +235,10 @@ func runHugeAlien(op string, v *Verdict) {
 func runC02(c Case, m *Model) (v Verdict) {
 	if strings.HasPrefix(c.Op, "c02.hugealien") {
 		runHugeAlien(c.Op, &v)
+		return
+	}
+	if strings.HasPrefix(c.Op, "smf.manytracks") {
+		runManyTracks(c.Op, &v)
 		return
 	}
 	mf := fields(m.Ask(c.Op))
